@@ -3,7 +3,7 @@ import json, os, random
 from tools import vlib, t3
 
 MODULE = "PropC17"
-THEOREMS = ["C17_code_conforms", "C17_bytes", "C17_progress", "C17_terminates", "C17_rerun_untouched", "C17_rerun_drained", "C17_pairs_bytes", "C17_pairs_rerun_untouched", "C17_pairs_progress", "C17_pairs_maximal", "C17_pairs_terminate", "C17_pairs_example", "C17_pairs_too_few_slots_refuted", "C17_run_ok", "C17_one_slot_refuted", "C17_audit_race_refuted", "C17_rerun_without_drain_refuted"]
+THEOREMS = ["C17_code_conforms", "C17_bytes", "C17_progress", "C17_terminates", "C17_rerun_untouched", "C17_rerun_drained", "C17_drain_concurrent_progress", "C17_drain_sequential_refuted_before_repair", "C17_pairs_bytes", "C17_pairs_rerun_untouched", "C17_pairs_progress", "C17_pairs_maximal", "C17_pairs_terminate", "C17_pairs_example", "C17_pairs_too_few_slots_refuted", "C17_run_ok", "C17_one_slot_refuted", "C17_audit_race_refuted", "C17_rerun_without_drain_refuted"]
 
 
 def case(args):
@@ -144,6 +144,48 @@ def runto_branch_case(args):
         sc.close()
 
 
+def two_streams_case(args):
+    """a producer with two streaming out-ports (or a streaming and a regular one) and a consumer that reads both: bytes,
+    nothing at the stream paths, no FIFO left, and the completed workflow can be run again"""
+    seed, i = args
+    rng = random.Random(seed * 236887721 + i)
+    n = rng.randint(1, 3)
+    sp = t3.Spec(maxtasks=2 * n + rng.randint(0, 2), bufsize=rng.choice([1, 128]))
+    paths = []
+    for j in range(n):
+        p = "ts%d.dat" % j
+        sp.files[p] = ("payload %d " % j) * rng.choice([1, 200, 9000])
+        paths.append(p)
+    s = sp.src("src", paths)
+    both = True     # a streaming and a regular output of one task into one consumer cannot work by design: finding D23 (C05)
+    prod = sp.proc(t3.Proc("prod", kind="cat", ins=[("a", [(s, "out")])], outs=[("o", "{i:a}.s1"), ("o2", "{i:a}.s2")], stream_outs=["o", "o2"] if both else ["o"]))
+    sp.proc(t3.Proc("cons", kind="cat", ins=[("a", [(prod, "o")]), ("b", [(prod, "o2")])], outs=[("o", "{i:a|basename}.cons")]))
+    model = t3.run_model(sp.text())
+    sc = t3.Scratch()
+    try:
+        sc.plant(sp.files)
+        impl = t3.run_impl(sc, sp, timeout=60)
+        problems = t3.compare_success(sp, model, impl) if (model["status"] == "done" and not model["failed"]) else [("model", "model fails")]
+        if not problems:
+            for p in paths:
+                for ext, st in ((".s1", True), (".s2", both)):
+                    if st and (p + ext) in impl["fs"]:
+                        problems.append(("stream-left-trace", "something exists at the streaming output path %r after the run" % (p + ext)))
+                    if (p + ext + ".fifo") in impl["fs"]:
+                        problems.append(("fifo-left", "the pipe %r.fifo was not removed" % (p + ext)))
+            impl2 = t3.run_impl(sc, sp, timeout=30)
+            if impl2["timed_out"]:
+                problems.append(("rerun-hangs", "re-running the completed workflow does not terminate"))
+            elif impl2["rc"] != 0:
+                problems.append(("rerun-fails", "re-running the completed workflow exits %s: %s" % (impl2["rc"], impl2["stderr"][-200:])))
+            elif t3.leftovers(impl2["fs"]):
+                problems.append(("rerun-leftovers", "temp dirs / FIFOs left after the re-run: %s" % t3.leftovers(impl2["fs"])[:3]))
+        return {"spec": sp.text(with_files=False), "bufsize": sp.bufsize, "problems": problems[:3], "known": [], "ntasks": 2 * n, "rc": impl["rc"], "stderr": impl["stderr"][-300:],
+                "yield": None, "wall": impl["wall"], "sizes": [len(sp.files[p]) for p in paths], "chain": False}
+    finally:
+        sc.close()
+
+
 def run(rep, tier, seed):
     proved = vlib.prove(rep, MODULE, THEOREMS)
     ok, msg = vlib.build_ocaml()
@@ -151,6 +193,7 @@ def run(rep, tier, seed):
         raise RuntimeError("extraction/driver build failed: " + msg[-1500:])
     n = 36 if tier == "quick" else 600
     results = t3.run_many(case, [(seed, i) for i in range(n)])
+    results += t3.run_many(two_streams_case, [(seed, i) for i in range(n // 4)])
     results += t3.run_many(runto_branch_case, [(seed, i) for i in range(n // 4)])
     kf = vlib.known_findings("C17")
     nk = 0
@@ -165,7 +208,7 @@ def run(rep, tier, seed):
     t3.report_t3(rep, MODULE, proved, results, "T3 streaming pairs / chains / re-run")
     rep.cov["evaluations"] = len(results) * 2
     rep.cov["distinct_nontrivial"] = len({r["spec"] + str(r["sizes"]) for r in results})
-    rep.cov["rule"] = "n in 1..3 streamed items with maxConcurrentTasks >= 2n, payloads from 0 bytes to 200000 bytes (around the 64 KiB pipe buffer in a third of the runs), producer-first or consumer-first delays, pairs and two-stage streaming chains: the consumer's bytes, the file set and the command texts equal the reference evaluator's; nothing at the stream path, no FIFO left; the consumer's audit record has an Upstream entry for the stream naming the producer; a stream with two consumers of which RunTo keeps one (the kept consumer gets all bytes); then the workflow is run again in place (30 s bound): exit 0, consumer outputs keep inode / mtime / bytes, no leftovers"
+    rep.cov["rule"] = "n in 1..3 streamed items with maxConcurrentTasks >= 2n, payloads from 0 bytes to 200000 bytes (around the 64 KiB pipe buffer in a third of the runs), producer-first or consumer-first delays, pairs and two-stage streaming chains: the consumer's bytes, the file set and the command texts equal the reference evaluator's; nothing at the stream path, no FIFO left; the consumer's audit record has an Upstream entry for the stream naming the producer; a producer with two streaming out-ports (or a streaming and a regular one) read by one consumer; a stream with two consumers of which RunTo keeps one (the kept consumer gets all bytes); then the workflow is run again in place (30 s bound): exit 0, consumer outputs keep inode / mtime / bytes, no leftovers"
     rep.cov["samples"] = [results[0]["spec"]]
     rep.notes["input_distribution"] = {"runs": len(results), "chains": sum(1 for r in results if r["chain"]), "payload_sizes": sorted({s for r in results for s in r["sizes"]})[:40]}
     rep.assump += ["the kernel's FIFO semantics (modelled, not verified)", "maxConcurrentTasks >= 2n (the property's guard; the single-slot deadlock is a refuted lemma)"]
